@@ -131,6 +131,12 @@ def native_test_binary(pkg_rel, workdir):
     return out
 
 
+def _limit_memory():
+    # replays of non-termination witnesses may allocate without bound: cap the address space
+    import resource
+    resource.setrlimit(resource.RLIMIT_AS, (12 << 30, 12 << 30))
+
+
 def run_native(pkg_rel, workdir, harness, bounds, replay=None, seed=None, count=1, timeout=300):
     binp = native_test_binary(pkg_rel, workdir)
     if binp is None:
@@ -145,7 +151,8 @@ def run_native(pkg_rel, workdir, harness, bounds, replay=None, seed=None, count=
         env["VP_COUNT"] = str(count)
     try:
         r = subprocess.run([binp, "-test.run", "^TestVerifReplay$", "-test.count=1", "-test.timeout", f"{timeout}s"],
-                           cwd=os.path.join(REPO, pkg_rel), env=env, capture_output=True, text=True, timeout=timeout + 30)
+                           cwd=os.path.join(REPO, pkg_rel), env=env, capture_output=True, text=True, timeout=timeout + 30,
+                           preexec_fn=(_limit_memory if timeout < 60 else None))
     except subprocess.TimeoutExpired:
         return [{"status": "timeout", "msg": "native run timed out", "observes": [], "draws": []}]
     if not os.path.exists(outp):
@@ -167,6 +174,8 @@ def run_gosym(pkg, harness, opts, bounds, outp, known_ids, extra=None, timeout=N
         cmd.append("-revmap")
     if opts.get("maprotate"):
         cmd.append("-maprotate")
+    if opts.get("unwind_violation"):
+        cmd.append("-unwindviol")
     if opts.get("nomerge"):
         cmd.append("-nomerge")
     if known_ids:
@@ -312,14 +321,16 @@ def run_property(pid, spec, tier, seed, workdir, t0, only, nodiff):
                 # Go randomises map iteration: when the engine forked over iteration orders the native
                 # replay is repeated until the recorded order comes up (bounded number of attempts)
                 for attempt in range(40 if o2.get("maprotate") else 1):
-                    nat = run_native(pkg_rel, workdir, h["name"], bounds, replay=rp)
+                    # a non-termination witness is replayed under a short time limit: a hang (or the memory
+                    # exhaustion it leads to) reproduces it
+                    nat = run_native(pkg_rel, workdir, h["name"], bounds, replay=rp, timeout=(20 if v["kind"] == "unwind" else 300))
                     totals["replays"] += 1
                     if nat:
                         n0 = nat[0]
                         detail = f"{n0['status']}: {n0.get('msg','')}"
                         if v["kind"] == "assert":
                             ok = n0["status"] == "assertfail" and n0.get("msg") == v["msg"]
-                        elif v["kind"] in ("panic", "stackoverflow"):
+                        elif v["kind"] in ("panic", "stackoverflow", "unwind"):
                             ok = n0["status"] in ("panic", "crash", "timeout")
                     if ok or not nat:
                         break
